@@ -202,6 +202,11 @@ def parse_with_formats(date_string, date_formats, settings):
                 _check_strict_parsing(_get_missing_parts(date_format), settings)
             except ValueError:
                 continue
+            if not ("%y" in date_format or "%Y" in date_format):
+                # before the day is completed: the last day of February depends on it
+                today = datetime.today()
+                date_obj = date_obj.replace(year=today.year)
+
             missing_month = not any(m in date_format for m in ["%m", "%b", "%B"])
             missing_day = "%d" not in date_format
             if missing_month and missing_day:
@@ -216,10 +221,6 @@ def parse_with_formats(date_string, date_formats, settings):
             elif missing_day:
                 period = "month"
                 date_obj = set_correct_day_from_settings(date_obj, settings)
-
-            if not ("%y" in date_format or "%Y" in date_format):
-                today = datetime.today()
-                date_obj = date_obj.replace(year=today.year)
 
             try:
                 date_obj = apply_timezone_from_settings(date_obj, settings)
